@@ -461,6 +461,9 @@ def obligations_of(body, prog, entry=None, stdp=None):
     return out, fz
 
 
+_summaries = {}
+
+
 def run_scope(chk, rule, prog, fids, what, floor=1, kinds=None):
     """evaluate all obligations of the functions `fids` under `rule`"""
     aud = audited()
@@ -504,6 +507,16 @@ def run_scope(chk, rule, prog, fids, what, floor=1, kinds=None):
                             ok = True
                     if not ok:
                         missing.append(callee)
+                for rxs, want in e["requires"].get("implied", []):
+                    # the condition under which the site is reached must imply the listed tests (the audit's premise is a
+                    # guard in the same function)
+                    from . import guards, sym
+                    S = _summaries.setdefault(id(prog), sym.Analyzer(prog)).summary(fid)
+                    F = guards.reach_formula(body, S, o.bb)
+                    iv = guards.implied_values(F) if F is not True else {}
+                    rx = re.compile(rxs)
+                    if not any(rx.fullmatch(k[1]) and vals == {want} for k, vals in (iv or {}).items()):
+                        missing.append("the test `%s` == %s" % (rxs, want))
                 if missing:
                     chk.add(Finding(rule, "%s::%s::requires" % (rule, o.key), "possible panic: %s `%s` is listed as audited only under the condition that a successful call of %s dominates it (%s); that call no longer dominates the site" % (o.kind, o.src or o.desc, ", ".join(missing), e["why"]), o.where,
                                     {"function": o.fid, "kind": o.kind, "operands": o.desc, "source": o.src, "needs": o.need}))
